@@ -46,7 +46,8 @@ def ddl_source(draw):
         return {"t": "corpus", "item": draw(st.sampled_from([i for i, it in enumerate(universe.corpus()) if "input.regex" in it["ddl"]]))}
     if k <= 5:
         blocks = draw(universe.script(1, 3, unsupported_p=draw(st.sampled_from([0, 0, 3]))))
-        ops = [draw(c13.comment_op(i)) for i in range(draw(st.integers(0, 2)))]
+        # comments of every style (reported ones, '#' / '--' whole lines, block comments); no model of them is needed here
+        ops = [draw(st.one_of(c13.comment_op(i), c08.comment_op(i), c08.comment_op(i))) for i in range(draw(st.integers(0, 3)))]
         return {"t": "gen", "blocks": blocks, "layout": draw(gen.layout(max_len=30)), "ops": ops, "unterminated": draw(st.integers(0, 3)) == 0,
                 "trailing_set": draw(st.integers(0, 4)) == 0}
     if k <= 7:
